@@ -1,6 +1,6 @@
 From Coq Require Import ZArith List Bool Reals Lra.
 From Flocq Require Import Core BinarySingleNaN.
-Require Import GV.FloatBase GV.FloatLemmas GV.AngleM GV.AngleProofs GV.GeonumM GV.GeonumProofs GV.NewProofs GV.CtorProofs.
+Require Import GV.FloatBase GV.FloatLemmas GV.AngleM GV.AngleProofs GV.GeonumM GV.GeonumProofs GV.NewProofs GV.CtorProofs GV.ClosureProofs GV.SumUpper.
 Open Scope R_scope.
 Require Import GV.Properties.C02.
 Check C02_fast_path : forall k, (0 <= k < 2 ^ 53)%Z -> new (of_Z k) two = {| rem := zero; blade := k |}.
@@ -37,3 +37,10 @@ Check C02_new_value_pd : forall p d, fin p -> fin d -> R_ d <> 0 ->
   Rabs (theta (new p d) - R_ p * R_ PI / R_ d)
     <= R_ eps10 + / 4503599627370496 + / 2251799813685248 * Rabs (R_ p * R_ PI / R_ d) + bpow radix2 (-70).
 Print Assumptions C02_new_value_pd.
+Check C02_negative_at_most_one_turn : forall p d, fast_path p d = false ->
+  fin (total_angle p d) -> Rabs (R_ (total_angle p d)) <= bpow radix2 42 -> R_ (total_angle p d) < 0 ->
+  (0 <= blade (new p d) <= 4)%Z /\ (blade (new p d) = 4%Z -> R_ (rem (new p d)) <= / 256).
+Print Assumptions C02_negative_at_most_one_turn.
+Check C02_lift_range : forall t, fin t -> Rabs (R_ t) <= bpow radix2 42 -> R_ t < 0 ->
+  fin (lift_total t) /\ 0 <= R_ (lift_total t) <= 4 * R_ Q + / 256.
+Print Assumptions C02_lift_range.
